@@ -11,6 +11,10 @@ a subprocess running under another PYTHONHASHSEED):
             "cbe": bool|None, "hidden": bool, "pw": [str]|None, "known_xml": bool|None, "kids": [<node>]}
   <value> = ["none"] | ["str", s] | ["list", [s...]] | ["tuple", [s...]] | ["int", n] | ["float", x] | ["bool", b]
           | ["obj", s] (an object whose str() is s)
+          | ["charset", s] | ["content", s] (CharsetMetaAttributeValue / ContentMetaAttributeValue with original value s:
+            what a parsed <meta charset=...> / <meta http-equiv=Content-Type content=...> carries)
+  optional: "eventual": str|None  (eventual_encoding passed to decode / decode_contents; default "utf-8"),
+            "encoding": str       (encoding passed to encode / encode_contents; default "utf-8")
   <formatter spec> = {"way": "object", "cls": "Formatter"|"HTMLFormatter"|"XMLFormatter", "kw": {...}}
                    | {"way": "name", "name": str|None} | {"way": "function", "f": <fn>}
   kw values: "language": str|None, "entity_substitution": <fn>|None, "void_element_close_prefix": str|None,
@@ -25,7 +29,7 @@ import json, sys, warnings
 from bs4 import BeautifulSoup
 from bs4.builder._htmlparser import HTMLParserTreeBuilder
 from bs4.dammit import EntitySubstitution as ES
-from bs4.element import (Tag, NavigableString, Comment, CData, ProcessingInstruction, XMLProcessingInstruction,
+from bs4.element import (CharsetMetaAttributeValue, ContentMetaAttributeValue, Tag, NavigableString, Comment, CData, ProcessingInstruction, XMLProcessingInstruction,
                          Declaration, Doctype, Stylesheet, Script, TemplateString, RubyTextString,
                          RubyParenthesisString)
 from bs4.formatter import Formatter, HTMLFormatter, XMLFormatter
@@ -138,6 +142,10 @@ def make_value(v):
     t = v[0]
     if t == "obj":
         return _Obj(v[1])
+    if t == "charset":
+        return CharsetMetaAttributeValue(v[1])
+    if t == "content":
+        return ContentMetaAttributeValue(v[1])
     if t == "none":
         return None
     if t == "tuple":
@@ -175,6 +183,10 @@ def value_desc(v):
         return ["list", [str(x) for x in v]]
     if isinstance(v, _Obj):
         return ["obj", v.text]
+    if isinstance(v, CharsetMetaAttributeValue):
+        return ["charset", v.original_value]
+    if isinstance(v, ContentMetaAttributeValue):
+        return ["content", v.original_value]
     return ["str", str(v)]
 
 
@@ -216,16 +228,18 @@ def run_case(case):
         entry = case["entry"]
         with warnings.catch_warnings():
             warnings.simplefilter("ignore")
+            ev = case["eventual"] if "eventual" in case else "utf-8"
+            enc = case.get("encoding", "utf-8")
             if entry == "decode":
-                out = el.decode(case["level"], formatter=fmt)
+                out = el.decode(case["level"], ev, fmt)
             elif entry == "prettify":
                 out = el.prettify(formatter=fmt)
             elif entry == "decode_contents":
-                out = el.decode_contents(case["level"], formatter=fmt)
+                out = el.decode_contents(case["level"], ev, fmt)
             elif entry == "encode":
-                out = el.encode("utf-8", case["level"], fmt).decode("utf-8")
+                out = el.encode(enc, case["level"], fmt).decode(enc)
             elif entry == "encode_contents":
-                out = el.encode_contents(case["level"], "utf-8", fmt).decode("utf-8")
+                out = el.encode_contents(case["level"], enc, fmt).decode(enc)
             elif entry == "str_output_ready":
                 out = el.output_ready(formatter=fmt)
             else:
